@@ -9,7 +9,10 @@
 (*           call histories: one function value made from the exposed callable, invoked    *)
 (*           L times through every invocation form; (P) ALL property histories: one object *)
 (*           whose properties are assigned / redefined as data or accessor / deleted in    *)
-(*           every sequence of L steps, then converted.                                    *)
+(*           every sequence of L steps, then converted; (D) ALL declaration histories: a   *)
+(*           name bound by set / by a script / not at all, then every sequence of L evals  *)
+(*           of scripts that declare or merely mention the name; (N) ints that are not     *)
+(*           doubles at every position of a container.                                     *)
 (*   Judge : every recorded trace is folded through the store of copies, event by event;   *)
 (*           a mismatch records clause + index, adopts the observation and keeps going.    *)
 EXTENDS Boundary, Json, IOUtils
@@ -80,6 +83,49 @@ ASSUME /\ IntToDouble(0, <<1>>) = <<16368, 0, 0, 0>> /\ IntToDouble(0, <<3>>) = 
        /\ ~NumEq(PyFloat(WNegZero), PyFloat(WPosZero)) /\ NumEq(PyFloat(WNaN), PyFloat(<<32760, 0, 0, 1>>))
        /\ KeyText(PySmall(-12), "py") = U("-12") /\ KeyText(PySmall(0), "py") = U("0") /\ KeyText(PyBool(TRUE), "json") = U("true")
 
+\* ---------------- "a value EQUAL to the one given" for ints (round 4) ------------------------------
+\* Python compares an int with a float by exact value: 2^53+1 == 9007199254740992.0 is False.  An expected int is
+\* therefore met by the same int, or by a float only when the int IS that double (representable, inside the double
+\* range); the nearest double of an int that is not a double is a different number.  Same the other way round.
+XInRange(m) == Len(MagBits(NormLimbs(m))) <= 1024
+XIsDouble(v) == ExactInt(v.sg, v.m) /\ XInRange(v.m)
+XNumEq(a, b) ==
+  CASE a.k = "int" /\ b.k = "float" -> XIsDouble(a) /\ NumEq(a, b)
+    [] a.k = "float" /\ b.k = "int" -> XIsDouble(b) /\ NumEq(a, b)
+    [] OTHER -> NumEq(a, b)
+RECURSIVE XEqPy(_, _)
+XEqPy(a, b) ==      \* a: expected (keys are strings), b: observed
+  IF a.k \in {"int", "float"} THEN b.k \in {"int", "float"} /\ XNumEq(a, b)
+  ELSE /\ a.k = b.k
+       /\ CASE a.k = "none" -> TRUE
+            [] a.k = "bool" -> a.b = b.b
+            [] a.k = "str"  -> a.u = b.u
+            [] a.k = "list" -> Len(a.e) = Len(b.e) /\ \A i \in 1..Len(a.e) : XEqPy(a.e[i], b.e[i])
+            [] a.k = "dict" -> /\ Len(a.p) = Len(b.p)
+                               /\ \A i \in 1..Len(b.p) : b.p[i].kk.k = "str"
+                               /\ \A i \in 1..Len(a.p) : \E j \in 1..Len(b.p) :
+                                     b.p[j].kk.u = a.p[i].kk.u /\ XEqPy(a.p[i].v, b.p[j].v)
+            [] OTHER -> FALSE
+I2p53p3  == PyInt(0, <<3, 0, 0, 32>>)
+I2p64p1  == PyInt(0, <<1, 0, 0, 0, 1>>)
+I1e20p7  == PyInt(0, <<7, 25360, 24109, 27591, 5>>)                                   \* 10^20 + 7
+I3p70    == PyInt(0, <<14297, 63976, 40709, 8146, 61328, 17319, 31594>>)              \* 3^70
+I2p1024p1 == PyInt(0, [j \in 1..65 |-> IF j \in {1, 65} THEN 1 ELSE 0])               \* 2^1024 + 1: beyond the largest double
+IN2p1024  == PyInt(1, [j \in 1..65 |-> IF j = 65 THEN 1 ELSE 0])                      \* -(2^1024)
+I2p1023p1 == PyInt(0, [j \in 1..64 |-> IF j = 1 THEN 1 ELSE IF j = 64 THEN 32768 ELSE 0])   \* 2^1023 + 1: in range, not a double
+ASSUME /\ XNumEq(I2p53p1, I2p53p1) /\ ~XNumEq(I2p53p1, PyFloat(<<17216, 0, 0, 0>>)) /\ ~XNumEq(I2p53p1, I2p53)
+       /\ ~XNumEq(PyFloat(<<17216, 0, 0, 0>>), I2p53p1) /\ XNumEq(PyFloat(<<17216, 0, 0, 0>>), I2p53) /\ XNumEq(I2p53, PyFloat(<<17216, 0, 0, 0>>))
+       /\ XNumEq(I2p53p2, PyFloat(<<17216, 0, 0, 1>>)) /\ ~XNumEq(I2p53p3, PyFloat(<<17216, 0, 0, 2>>)) /\ ~XNumEq(I2p53p3, PyFloat(<<17216, 0, 0, 1>>))
+       /\ ~XNumEq(I2p64p1, PyFloat(<<17392, 0, 0, 0>>)) /\ XNumEq(I2p64, PyFloat(<<17392, 0, 0, 0>>))
+       /\ IntToDouble(0, I1e20p7.m) = <<17429, 44829, 30901, 35904>> /\ ~XNumEq(I1e20p7, PyFloat(<<17429, 44829, 30901, 35904>>))
+       /\ IntToDouble(0, I3p70.m) = <<18142, 55952, 59899, 58376>> /\ ~XNumEq(I3p70, PyFloat(<<18142, 55952, 59899, 58376>>))
+       /\ IntToDouble(0, I2p1024p1.m) = WPosInf /\ ~XNumEq(I2p1024p1, PyFloat(WPosInf)) /\ XNumEq(I2p1024p1, I2p1024p1)
+       /\ IntToDouble(1, IN2p1024.m) = WNegInf /\ ~XNumEq(IN2p1024, PyFloat(WNegInf)) /\ ~XNumEq(PyFloat(WNegInf), IN2p1024)
+       /\ ~XNumEq(I2p1023p1, PyFloat(<<32736, 0, 0, 0>>)) /\ IntToDouble(0, I2p1023p1.m) = <<32736, 0, 0, 0>>
+       /\ XNumEq(PySmall(0), PyFloat(WPosZero)) /\ ~XNumEq(PySmall(0), PyFloat(WNegZero)) /\ XNumEq(PySmall(7), PyFloat(<<16412, 0, 0, 0>>))
+       /\ XNumEq(PyFloat(WNaN), PyFloat(<<32760, 0, 0, 1>>)) /\ XNumEq(PyFloat(W1p5), PyFloat(W1p5))
+
+
 VARIABLES ph, cur, ehist, est, eheld, rec_i
 vars == <<ph, cur, ehist, est, eheld, rec_i>>
 Names == {"a", "b"}
@@ -100,7 +146,8 @@ LawInit == /\ ph = "lawseed" /\ cur \in ({[lv |-> 2, x |-> x] : x \in Leaves12} 
 LawNext == /\ ph = "lawseed" /\ ph' = "law"
            /\ cur' \in Expand(cur.lv, cur.x)
            /\ UNCHANGED <<ehist, est, eheld, rec_i>>
-LawsHold == ph # "law" \/ Law(cur)
+LawX(v) == \A ks \in KeyStyles : LET n == Norm(v, ks) IN XEqPy(n, n) /\ XEqPy(n, ToPy(ToJs(v, ks)))    \* the exact equality is reflexive on normal forms, too
+LawsHold == ph # "law" \/ (Law(cur) /\ LawX(cur))
 
 \* ---------------- Enum (B): boundary traces -----------------------------------------------------
 ESet(nm, v)      == [op |-> "set", nm |-> nm, v |-> v]
@@ -149,6 +196,24 @@ SpecialKeyVals == {D(<<KV(PyStr(U(sn)), x), KV(PyStr(U("name")), PyStr(U("guest"
                   \cup {PyList(<<D(<<KV(PyStr(U(sn)), x)>>)>>) : sn \in SpecialNames, x \in SpecialHeld}
 RoundTrip(v) == <<ESet("a", v), EView("a"), EGet("a"), EName("a"), EMutRet("a"), EGet("a"), EName("a"), EMutPassed("a"), EGet("a"), EName("a")>>
 
+\* (N, round 4) ints that are not doubles - next to 2^53, at 2^63 / 2^64, far beyond, beyond the double range, both signs -
+\* alone and at every kind of position of a container (list element, dict value, two levels down).  The script's own
+\* view of an int beyond the double range is not judged (harness/wire.py has a class of its own for it): no jsview there.
+BigInts == {I2p53p1, IN2p53p1, I2p53p3, I2p63m1, I2p64p1, I2p64x, I1e20p7, I3p70, I2p1023p1, I2p1024p1, IN2p1024}
+BigPositions == {"top", "list", "dictval", "deep"}
+BigAt(v, pos) ==
+  CASE pos = "top"     -> v
+    [] pos = "list"    -> PyList(<<PySmall(1), v>>)
+    [] pos = "dictval" -> D(<<KV(PyStr(U("n")), v), KV(PyStr(U("s")), PyStr(U("s")))>>)
+    [] pos = "deep"    -> D(<<KV(PyStr(U("a")), PyList(<<v, PyList(<<v, D(<<KV(PyStr(U("b")), v)>>)>>)>>)), KV(PyStr(U("c")), v)>>)
+RoundTripNV(v) == <<ESet("a", v), EGet("a"), EName("a"), EMutRet("a"), EGet("a"), EName("a"), EMutPassed("a"), EGet("a"), EName("a")>>
+BigTraces == {IF XInRange(v.m) THEN RoundTrip(BigAt(v, pos)) ELSE RoundTripNV(BigAt(v, pos)) : v \in BigInts, pos \in BigPositions}
+ASSUME /\ \A v \in BigInts : ~XIsDouble(v)
+       /\ \E v \in BigInts : ~XInRange(v.m) /\ v.sg = 0
+       /\ \E v \in BigInts : ~XInRange(v.m) /\ v.sg = 1 /\ ExactInt(v.sg, v.m)          \* a power of two beyond the range
+       /\ \E v \in BigInts : XInRange(v.m) /\ v.sg = 1
+       /\ \E v \in BigInts : Len(MagBits(v.m)) = 1024                                  \* at the top of the range
+
 \* script results
 JsLeaves == {Undef, Null, VBool(TRUE), VBool(FALSE), VInt(0), VInt(1), VInt(-7), VNumW(WNegZero), VNumW(WNaN), VNumW(WPosInf),
              VNumW(WNegInf), VNumW(W1p5), VNumW(<<17216, 0, 0, 0>>), VStr(<<>>), VStr(U("a b")), VStr(Smile), VStr(<<55357>>),
@@ -174,7 +239,7 @@ Rets == {PyNone, PyBool(TRUE), PyBool(FALSE), PySmall(0), PySmall(7), I2p53p1, P
          PyStr(<<>>), PyStr(Smile), PyList(<<PySmall(1), PyList(<<>>)>>), D(<<KV(PyStr(U("k")), PySmall(1))>>)}
 FormOK(form, args) == form = "bind" => Len(args) >= 1          \* h.bind(null, a1)(a2, ...)
 CallTraces == {<<ECall(f, a, r)>> : f \in CallForms, a \in ArgVecs, r \in (IF Quick THEN {PyNone, PySmall(7), PyStr(Smile), PyList(<<PySmall(1), PyList(<<>>)>>)} ELSE Rets)}
-BoundaryTraces == {RoundTrip(v) : v \in BoundaryVals \cup SpecialKeyVals} \cup ExprTraces \cup {t \in CallTraces : FormOK(t[1].form, t[1].args)}
+BoundaryTraces == {RoundTrip(v) : v \in BoundaryVals \cup SpecialKeyVals} \cup BigTraces \cup ExprTraces \cup {t \in CallTraces : FormOK(t[1].form, t[1].args)}
 
 EnumBInit == /\ ph = "enumB" /\ cur \in BoundaryTraces /\ ehist = <<>> /\ est = <<>> /\ eheld = <<>> /\ rec_i = 0
              /\ PrintT(ToJson([t |-> cur]))
@@ -270,6 +335,49 @@ EnumPNext == /\ ph = "enumP" /\ ph' = "enumP2"
              /\ UNCHANGED <<ehist, est, eheld, rec_i>>
 EnumPEmit == ph # "enumP2" \/ (PrintT(ToJson([t |-> cur])) /\ FALSE)
 
+\* ---------------- Enum (D): declaration histories of one name (round 4) --------------------------------
+\* "for all interleavings of set / eval / get on one context": the evals of an interleaving are SCRIPTS, and a script can
+\* mention a name without assigning it.  A program-level `var nm` (no initialiser; at the top level, in a block that runs or
+\* does not run, in a for / for-in head, in a switch case, under a label, in try, in a list of declarators, in the source
+\* given to a script-level eval) CREATES the binding as undefined when the name is not bound and is NO OPERATION on a
+\* name that is bound - whatever the value is.  A declaration or parameter of that name inside a function, a catch
+\* parameter, typeof, or a declaration of another name do nothing to it.  ONE name - not bound / bound by Context.set /
+\* bound by an earlier script - over a grid of values that contains every falsy one of every kind, goes through ALL
+\* sequences of exactly L such evals; get + eval(name) after every step, the script's own view at the end.
+EDecl(nm, form) == [op |-> "evaldecl", nm |-> nm, form |-> form]
+\* form |-> what it does to the binding of the name: "declare" (create as undefined unless bound) | "none"
+DeclEffect == [var |-> "declare", block |-> "declare", deadblock |-> "declare", forinit |-> "declare", forin |-> "declare",
+               multi |-> "declare", trycatch |-> "declare", while |-> "declare", switch |-> "declare", labeled |-> "declare",
+               evalvar |-> "declare", selfinit |-> "declare",
+               other |-> "none", fnlocal |-> "none", fnparam |-> "none", typeof |-> "none", catchparam |-> "none",
+               fndecl |-> "none", newfunc |-> "none"]
+DeclForms == DOMAIN DeclEffect
+DeclFormsSub == {"var", "deadblock", "forinit", "evalvar", "selfinit", "fnlocal", "typeof"}
+DFormsName == IF "DFORMS" \in DOMAIN IOEnv THEN IOEnv.DFORMS ELSE "all"
+DForms == IF DFormsName = "all" THEN DeclForms ELSE DeclFormsSub
+DHeldPy == {PyNone, PyBool(TRUE), PyBool(FALSE), PySmall(0), PySmall(1), PyFloat(WPosZero), PyFloat(WNegZero), PyFloat(W1p5),
+            PyFloat(WNaN), PyStr(<<>>), PyStr(U("a")), PyList(<<>>), D(<<>>), PyList(<<PySmall(0)>>),
+            D(<<KV(PyStr(U("k")), PyBool(FALSE))>>), I2p53p1}
+DHeldJs == {Undef, Null, VBool(FALSE), VBool(TRUE), VInt(0), VNumW(WNegZero), VNumW(WNaN), VInt(7), VStr(<<>>), VStr(U("a")),
+            VArr(<<>>), VObj(<<>>), VArr(<<VInt(0), Null>>)}
+DBases == {<<>>} \cup {<<ESet("a", v)>> : v \in DHeldPy} \cup {<<EEvalSet("a", e)>> : e \in DHeldJs}
+RECURSIVE DHists(_)
+DHists(n) == IF n = 0 THEN {<<>>} ELSE {Append(hh, f) : hh \in DHists(n - 1), f \in DForms}
+DSteps(hh) == Flatten([n \in 1..Len(hh) |-> <<EDecl("a", hh[n]), EGet("a"), EName("a")>>])
+DTrace(base, hh) == base \o DSteps(hh) \o (IF base = <<>> THEN <<>> ELSE <<EView("a"), EMutRet("a"), EGet("a")>>)
+\* coverage law: the sub-grid of forms used for the longer histories has both effects, a declaration in code that does not
+\* run and one in code that runs, one inside eval source; the value grids contain every falsy value of every kind
+ASSUME /\ DeclFormsSub \subseteq DeclForms /\ {DeclEffect[f] : f \in DeclFormsSub} = {"declare", "none"}
+       /\ {DeclEffect[f] : f \in DeclForms} = {"declare", "none"}
+       /\ {PyNone, PyBool(FALSE), PySmall(0), PyFloat(WPosZero), PyFloat(WNegZero), PyFloat(WNaN), PyStr(<<>>), PyList(<<>>), D(<<>>)} \subseteq DHeldPy
+       /\ {Undef, Null, VBool(FALSE), VInt(0), VNumW(WNegZero), VNumW(WNaN), VStr(<<>>), VArr(<<>>), VObj(<<>>)} \subseteq DHeldJs
+       /\ \E v \in DHeldPy : v.k = "bool" /\ v.b /\ \E w \in DHeldPy : w.k = "str" /\ w.u # <<>>
+EnumDInit == /\ ph = "enumD" /\ cur \in DBases /\ ehist = <<>> /\ est = <<>> /\ eheld = <<>> /\ rec_i = 0
+EnumDNext == /\ ph = "enumD" /\ ph' = "enumD2"
+             /\ \E hh \in DHists(L) : cur' = DTrace(cur, hh)
+             /\ UNCHANGED <<ehist, est, eheld, rec_i>>
+EnumDEmit == ph # "enumD2" \/ (PrintT(ToJson([t |-> cur])) /\ FALSE)
+
 \* ---------------- Enum (I): all interleavings on two names ----------------------------------------
 \* the value written by event number n carries n; containers are nested so that shallow copies show
 ValAt(n) == IF n % 2 = 1 THEN PyList(<<PySmall(n), PyList(<<PySmall(n)>>)>>)
@@ -360,7 +468,7 @@ CreateStore(st, ev) ==
 
 \* one event: [st (store after), good, clause, exp]
 R(st, good, clause, exp) == [st |-> st, good |-> good, clause |-> clause, exp |-> exp]
-ValueOK(exp, ev) == ev.o = "value" /\ EqPy(exp, ev.out)
+ValueOK(exp, ev) == ev.o = "value" /\ XEqPy(exp, ev.out)
 AdoptObs(st, nm, ev, ks) == IF ev.o = "value" /\ PySupported(ev.out) THEN StoreSet(st, nm, ev.out, ks) ELSE st
 JStep(ev, st, ks) ==
   CASE ev.op = "set" -> R(StoreSet(st, ev.nm, ev.v, ks), ev.o = "value", "set-failed", PyNone)
@@ -374,6 +482,10 @@ JStep(ev, st, ks) ==
     [] ev.op = "evalexpr" -> LET exp == ToPy(ev.e) IN R(st, ValueOK(exp, ev), "evalexpr", exp)
     [] ev.op = "evalset" -> R([st EXCEPT ![ev.nm] = ev.e], ev.o = "value", "evalset-failed", PyNone)
     [] ev.op = "evalmut" -> R(StoreMut(st, ev.nm, ev.x), ev.o = "value", "evalmut-failed", PyNone)
+    [] ev.op = "evaldecl" ->
+         IF ev.form \notin DeclForms THEN R(st, FALSE, "unsupported", PyNone)
+         ELSE R(IF DeclEffect[ev.form] = "declare" /\ st[ev.nm].k = "unset" THEN [st EXCEPT ![ev.nm] = Undef] ELSE st,
+                ev.o = "value", "evaldecl-failed", PyNone)
     [] ev.op \in {"mutret", "mutpassed"} -> R(st, ev.o = "value", "mutate-failed", PyNone)      \* no effect on the store of copies
     [] ev.op = "hostcall" ->
          LET exp == ExpectedCalls(ev.form, ev.args)
